@@ -166,7 +166,7 @@ def run_child(binp, plan, timeout=120, kind="run"):
     except subprocess.TimeoutExpired as e:
         rc, err = -9, (e.stderr or "") if isinstance(e.stderr, str) else ""
     res = None
-    rp = os.path.join(plan["out"], {"run": "result.json", "indexer": "indexer.json", "buslock": "buslock.json"}[kind])
+    rp = os.path.join(plan["out"], {"run": "result.json", "indexer": "indexer.json", "buslock": "buslock.json", "ws": "ws.json"}[kind])
     if os.path.exists(rp):
         with open(rp) as f:
             res = json.load(f)
@@ -786,7 +786,470 @@ def sub_selftest(ctx):
         log("binding self-test: " + s)
 
 
-SUBCHECKS = [sub_design, sub_buslocks, sub_deviations, sub_indexer, sub_timers, sub_simulate, sub_stress, sub_selftest]
+# ------------------------------------------------------------------------------------------------ websocket server (spec/WsConn.tla)
+
+WS_SIZES = {
+    "quick": dict(directed=3, free=6, conns=3, rounds=4, kib=1024, bigkib=8192, stall=25, cfgs=["WsConn_mc.cfg"]),
+    "thorough": dict(directed=6, free=48, conns=5, rounds=8, kib=2048, bigkib=16384, stall=40, cfgs=["WsConn_mc.cfg", "WsConn_mc_thorough.cfg", "WsConn_mc_thorough_b.cfg"]),
+}
+WS_TEXT = {
+    "Crash/ws-concurrent-write": "two goroutines were inside gorilla's write of one connection at the same time (gorilla/websocket allows ONE concurrent writer; "
+                                 "all writers of a connection must go through wsConn.mux): 'panic: concurrent write to websocket connection'",
+    "Corrupt/ws-frame-interleaved": "a client received a frame that is not the one well-formed JSON-RPC message it had to be",
+    "Deadlock": "goroutines of the websocket server did not come to rest / a request stayed unanswered on an open connection",
+}
+
+
+def ws_plan(mode, order, seed, sz, out, conns=None, sockbuf=65536, rounds=None, kib=None):
+    return dict(seed=seed, mode=mode, order=order, conns=conns or sz["conns"], rounds=rounds or sz["rounds"], respKiB=kib or sz["kib"], stallMs=sz["stall"],
+                sockBuf=sockbuf, out=out)
+
+
+def ws_signature(c):
+    """Outcome class of one run of the real websocket server. Returns (signature | None, text)."""
+    err, res = c["stderr"], c["result"]
+    if c["panic"]:
+        m = re.search(r"^goroutine \d+ \[running\]:\n(.*?)(?:\n\n|\Z)", err, re.S | re.M)
+        stack = m.group(1) if m else ""
+        fns = re.findall(r"evermint/v12/rpc\.\(\*(\w+)\)\.([\w.]+)", stack)
+        role = "notifier" if any(f.startswith("subscribe") for _, f in fns) else ("readLoop" if any("readLoop" in f for _, f in fns) else "other")
+        at = ".".join(fns[-1]) + (" (via %s)" % ".".join(fns[0]) if len(fns) > 1 else "") if fns else "?"
+        if "concurrent write to websocket connection" in c["panic"]:
+            return "Crash/ws-concurrent-write:" + role, "the node process died of 'panic: %s' in %s" % (c["panic"], at)
+        if not fns:
+            raise Infra("ws child panicked outside rpc/websockets.go (harness problem?):\n" + err[-3000:])
+        return "Crash/ws-%s:%s" % (re.sub(r"[^A-Za-z0-9]+", "-", c["panic"])[:50].strip("-"), role), "the node process died of 'panic: %s' in %s" % (c["panic"], at)
+    if res is None:
+        raise Infra("ws child wrote no result:\n" + err[-2000:])
+    herr = [e for k in res["conns"] for e in (k["harnessErrs"] or [])]
+    if herr:
+        raise Infra("ws harness problem: %s" % herr[:3])
+    rec = [x for x in (res["recovered"] or [])]
+    if rec:
+        if "concurrent write to websocket connection" in rec[0]:
+            return "Crash/ws-concurrent-write:readLoop", "the read loop of a connection panicked ('%s', recovered by net/http: the connection stays open, is never read again and its requests stay unanswered)" % rec[0]
+        return "Crash/ws-readLoop-panic", rec[0]
+    cor = [(k["conn"], e) for k in res["conns"] for e in (k["corrupt"] or [])]
+    if cor:
+        return "Corrupt/ws-frame-interleaved", "connection %d: %s" % cor[0]
+    if res["leftover"]:
+        g = res["leftover"][0]
+        m = re.match(r"(\w+) in (\S+)", g)
+        where = re.sub(r"[^A-Za-z0-9]+", "-", (m.group(1) + "-" + m.group(2).split(")")[-1]) if m else g).strip("-")[:50]
+        return "Deadlock/ws-" + where, "3 s after the last client went away: " + "; ".join(res["leftover"][:3])
+    mis = [(k["conn"], e) for k in res["conns"] for e in (k["missing"] or [])]
+    if mis:
+        return "Deadlock/ws-request-unanswered", "connection %d: %s" % mis[0]
+    sil = [(k["conn"], e) for k in res["conns"] for e in (k["silent"] or [])]
+    if sil:
+        return "Deadlock/ws-subscription-silent", "connection %d: subscription %s never notified while events kept coming" % sil[0]
+    return None, ""
+
+
+def ws_convert(raw_path, tag):
+    """Recording of one run (one line per ws hook call / client note) -> per connection the lines of TraceWsConn.tla."""
+    evs = [json.loads(x) for x in vlib.read_lines(raw_path) if x.strip()]
+    evs.sort(key=lambda e: e["n"])
+    conns = {}
+    for e in evs:
+        conns.setdefault(e["c"], []).append(e)
+    out = []
+    for c in sorted(conns):
+        lines, reader, subof, after_fwd, nsub, end = [], None, {}, False, 0, None
+
+        def emit(l, p=0, s=0, ok=True, k="", rd=0, nf=()):
+            lines.append(dict(l=l, p=p, s=s, ok=ok, k=k, rd=rd, nf=list(nf), c=c, run=tag))
+
+        emit("reset")
+        for idx, e in enumerate(conns[c]):
+            h, g = e["h"], e["g"]
+            if h == "open":
+                reader = g
+                continue
+            if h == "cl_close":
+                emit("cl_close", 2)
+                continue
+            if h == "end":  # judged last: the client may have a message before the writer logged the end of its write
+                end = e
+                continue
+            if g == reader:
+                p = 1
+            elif h == "notify":
+                p = subof.setdefault(g, 10 + e["s"])
+            else:
+                p = subof.get(g, 99)  # 99: a goroutine the specification does not know
+            nsub = max(nsub, e["s"])
+            if h == "read":
+                emit("rl_read", 1, ok=e["ok"])
+            elif h == "start":
+                emit("rl_sub", 1, s=e["s"])
+            elif h == "unsubscribed":
+                emit("rl_unsub", 1, s=e["s"])
+            elif h == "forwarded":
+                emit("rl_fwd", 1)
+                after_fwd = True
+            elif h == "exit":
+                emit("rl_exit", 1)
+            elif h == "notify":
+                emit("sg_idle", p, s=e["s"])
+            elif h == "w.locked":
+                emit("w_lock", p)
+                emit("w_beg", p)
+            elif h == "w.done":
+                emit("w_end", p)
+                emit("w_unlock", p)
+                if p == 1 and after_fwd:
+                    emit("rl_chk", 1)
+                    after_fwd = False
+                elif p != 1:  # sg_chk has no hook and reads only the goroutine's own state: what it decided shows in the goroutine's next line
+                    nxt = next((x["h"] for x in conns[c][idx + 1:] if x["g"] == g), "")
+                    emit("sg_chk", p, k="close" if nxt == "c.locked" else "ok")
+            elif h == "c.locked":
+                emit("c_lock", p)
+            elif h == "c.done":
+                emit("c_close", p)
+            else:
+                emit("unknown-hook-" + h, p)
+        if end:
+            emit("end", 0, rd=end.get("rd", 0), nf=end.get("nf") or [])
+        out.append(dict(run=tag, conn=c, lines=lines, subs=nsub))
+    return out
+
+
+def ws_overlap(sec):
+    """non-trivial connection trace = the window the specification is about was open: a notifier took an event while the read loop
+    was inside a write, or the read loop had an answer ready while a notifier was inside a write. Returns a key of the interleaving or None."""
+    inw, hit = set(), 0
+    for ln in sec["lines"]:
+        if ln["l"] == "w_beg":
+            inw.add(ln["p"])
+        elif ln["l"] == "w_end":
+            inw.discard(ln["p"])
+        elif (ln["l"] == "sg_idle" and 1 in inw) or (ln["l"] == "rl_fwd" and inw):
+            hit += 1
+    if not hit:
+        return None
+    return hashlib.sha1(" ".join("%d.%s" % (x["p"], x["l"]) for x in sec["lines"]).encode()).hexdigest()
+
+
+def ws_judge(d, sections, name="ws"):
+    """TLC (TraceWsConn.tla) judges the sections one after the other in one run. Returns (accepted sections, rejected: list of
+    (section, line dict, lineno in section), states)."""
+    todo, rejected, states, okc = list(sections), [], 0, 0
+    rounds = 0
+    while todo and len(rejected) < 3:  # (a tree that breaks the discipline is rejected everywhere: three samples are enough)
+        rounds += 1
+        td = os.path.join(d, "%s-judge%d" % (name, rounds))
+        os.makedirs(td, exist_ok=True)
+        vlib.stage_spec(td)
+        lines = [dict(l="header", p=0, s=0, ok=True, k="", rd=0, nf=[], c=0, run="")]
+        owner = [None]
+        for sec in todo:
+            for i, ln in enumerate(sec["lines"]):
+                lines.append(ln)
+                owner.append((sec, i))
+        write(os.path.join(td, "trace.ndjson"), "\n".join(json.dumps(x) for x in lines) + "\n")
+        S = max([1] + [sec["subs"] for sec in todo])
+        write(os.path.join(td, "judge.cfg"), "SPECIFICATION TraceSpec\nCONSTANTS\n  R = 1000000\n  S = %d\n  E = 1000000\n  U = 1000000\n  Bypass = FALSE\n"
+              "  TraceMode = TRUE\n  defaultInitValue = defaultInitValue\nINVARIANTS OneWriter NoCrash MuxInv ResetIsInit\nPOSTCONDITION TraceAccepted\nCHECK_DEADLOCK FALSE\n" % S)
+        r = vlib.tlc(td, "TraceWsConn", "judge.cfg", workers=1, timeout=1800)
+        states += r["generated"]
+        out = r["out"]
+        m = re.search(r'consumed lines up to", (\d+), "of", (\d+)', out)
+        inv = re.search(r"Invariant (\w+) is violated", out)
+        if inv:
+            ls = re.findall(r"^/\\ l = (\d+)", out, re.M)
+            bad = int(ls[-1]) - 1 if ls else len(lines)
+            why = "invariant " + inv.group(1)
+        elif m:
+            bad = int(m.group(1)) + 1
+            why = "no step of the specification"
+        elif r["ok"]:
+            okc += len(todo)
+            break
+        else:
+            raise Infra("ws trace validation: unreadable TLC result:\n" + out[-3000:])
+        bad = min(bad, len(lines))
+        sec, i = owner[bad - 1]
+        rejected.append((sec, sec["lines"][i], i + 1, why))
+        k = todo.index(sec)
+        okc += k
+        todo = todo[k + 1:]
+    return okc, rejected, states
+
+
+def ws_run(binp, plan, timeout=300):
+    shutil.rmtree(plan["out"], ignore_errors=True)
+    c = run_child(binp, plan, timeout=timeout, kind="ws")
+    sig, text = ws_signature(c)
+    return dict(plan=plan, child=c, sig=sig, text=text)
+
+
+def ws_repeats(binp, o, d, times=2):
+    """the same plan (same seed) again: how often the same signature shows."""
+    outs = pmap(lambda k: ws_run(binp, dict(o["plan"], out=o["plan"]["out"] + "-again%d" % k)), range(times), workers=times)
+    return sum(1 for x in outs if x["sig"] == o["sig"]), outs
+
+
+def sub_ws(v, w, tier, seed, binp=None, stats=None):
+    """The websocket server's per-connection write discipline (spec/WsConn.tla) bound to the real rpc.NewWebsocketsServer."""
+    sz = WS_SIZES[tier]
+    binp = binp or vlib.bin_path("vh_conc")
+    stats = stats if stats is not None else {}
+    d = w.sub("ws")
+    vlib.stage_spec(d)
+    cov = v.cov.setdefault("ws", {})
+    t0 = time.time()
+    # ---- design: the pinned discipline, all interleavings
+    runs = []
+    for c in sz["cfgs"]:
+        t1 = time.time()
+        r = vlib.tlc(d, "WsConn", c, workers=16, timeout=3600, extra=["-coverage", "1000"])
+        if r["violated"] or not r["ok"]:
+            raise Infra("the write discipline of websockets.go as modelled violates a property (%s) -- specification bug or a real defect to triage:\n%s" % (c, r["out"][-3000:]))
+        v.add_mc(r)
+        dead = [lab for lab, n, m in re.findall(r"^<(\w+) line \d+, col \d+ to line \d+, col \d+ of module WsConn>: (\d+):(\d+)", r["out"], re.M)
+                if int(m) == 0 and lab not in ("Terminating",)]
+        if dead:
+            raise Infra("WsConn design run %s is vacuous for labels %s" % (c, dead))
+        runs.append("WsConn/%s: %d distinct / %d generated, %.0fs" % (c, r["distinct"], r["generated"], time.time() - t1))
+        log("design run WsConn/%s: %d distinct states, %d transitions: OneWriter, NoCrash, MuxInv, deadlock freedom hold (%.0fs)" % (c, r["distinct"], r["generated"], time.time() - t1))
+    r = vlib.tlc(d, "WsConn", "WsConn_mc_live.cfg", workers=8, timeout=1800)
+    if r["violated"] or "Temporal properties were violated" in r["out"]:
+        raise Infra("WsConn: liveness under weak fairness violated:\n" + r["out"][-3000:])
+    v.add_mc(r)
+    runs.append("WsConn/live (WF: ReaderReturns, ComesToRest): %d distinct" % r["distinct"])
+    # ---- witnesses: with the deviation TLC must produce the two-writers schedule; it says who is inside the write first
+    orders = []
+    for inv in ("OneWriter", "NoReaderCrash"):
+        write(os.path.join(d, "bypass-%s.cfg" % inv), "SPECIFICATION MCSpec\nCONSTANTS\n  R = 1\n  S = 1\n  E = 2\n  U = 0\n  Bypass = TRUE\n  TraceMode = FALSE\n"
+              "  defaultInitValue = defaultInitValue\nINVARIANTS %s\nCHECK_DEADLOCK TRUE\n" % inv)
+        r = vlib.tlc(d, "WsConn", "bypass-%s.cfg" % inv, workers=1, timeout=600)
+        if not r["violated"] or inv not in r["out"]:
+            raise Infra("deviation Bypass enabled but TLC does not violate %s (write model vacuous):\n%s" % (inv, r["out"][-2000:]))
+        v.add_mc(r)
+        sched = re.findall(r"^State \d+: <(\w+)(?:\((\d+)\))? line", r["out"], re.M)
+        begs = [int(p or 1) for lab, p in sched if lab == "w_beg"]
+        last = r["out"][r["out"].rfind("State %d:" % (len(sched) + 1)):]
+        m = re.search(r"/\\ writing = \{([^}]*)\}", last)
+        inside = [int(x) for x in re.findall(r"\d+", m.group(1))] if m else []
+        if len(inside) != 2:
+            raise Infra("cannot read the two writers from the %s counterexample: %s" % (inv, last[:400]))
+        first = [p for p in begs if p in inside][-2]
+        order = "reader-first" if first == 1 else "sub-first"
+        orders.append((order, " ".join(a + ("(%s)" % b if b else "") for a, b in sched)))
+        log("witness Bypass/%s: TLC counterexample after %d distinct states, %d steps; inside the write first: %s, second writer: %s -> steer '%s'"
+            % (inv, r["distinct"], len(sched), "read loop" if first == 1 else "notifier", "notifier" if first == 1 else "read loop", order))
+    r = vlib.tlc(d, "WsConn", "WsConn_mc_obs.cfg", workers=1, timeout=600)
+    cov["observation_notification_before_subscription_id_possible_in_model"] = bool(r["violated"])
+    # ---- binding: the real server in child processes
+    jobs = []
+    for order, _ in orders:
+        for k in range(sz["directed"]):
+            jobs.append(ws_plan("directed", order, seed * 1000 + k, sz, os.path.join(d, "%s-%d" % (order, k)), conns=1 if order == "sub-first" else 2, rounds=2))
+    for k in range(sz["free"]):
+        big = k % 3 == 2  # every third run: system-default socket buffers (several MiB on loopback) and answers large enough to fill them
+        jobs.append(ws_plan("free", "", seed * 7919 + k, sz, os.path.join(d, "free-%d" % k), sockbuf=0 if big else 65536, kib=sz["bigkib"] if big else None))
+    for k in range(2):  # no overlap sought: small requests one after the other, few events -- material for the trace judge (when the tree has the hooks)
+        jobs.append(ws_plan("calm", "", seed * 31 + k, sz, os.path.join(d, "calm-%d" % k), conns=2, rounds=6, kib=4))
+    t1 = time.time()
+    outs = pmap(lambda p: ws_run(binp, p), jobs, workers=6)
+    hooks = any(o["child"]["result"] and o["child"]["result"]["hooks"] for o in outs)
+    agg = dict(runs=len(outs), connections=0, requests=0, answers=0, notifications=0, overlaps=0, mux_waits=0, early=0, parked=0, events=0, classes={}, closes={})
+    for o in outs:
+        res = o["child"]["result"]
+        if not res:
+            continue
+        agg["parked"] += res["parked"]
+        agg["mux_waits"] += res.get("muxWaits", 0)
+        agg["events"] += sum(res["events"].values())
+        for k in res["conns"]:
+            agg["connections"] += 1
+            agg["requests"] += k["requests"]
+            agg["answers"] += k["responses"]
+            agg["notifications"] += sum(k["notifs"] or [])
+            agg["overlaps"] += k["overlaps"]
+            agg["early"] += k["early"]
+            agg["closes"][k["closed"]] = agg["closes"].get(k["closed"], 0) + 1
+            for c, n in k["classes"].items():
+                agg["classes"][c] = agg["classes"].get(c, 0) + n
+    reported = set()
+    nclean = 0
+    for o in outs:
+        if o["sig"] is None:
+            nclean += 1
+            continue
+        if o["sig"] in reported:
+            continue
+        n, again = ws_repeats(binp, o, d)
+        tag = os.path.basename(o["plan"]["out"])
+        if n == len(again):
+            reported.add(o["sig"])
+            files = [([json.dumps(dict(kind="ws", expect=o["sig"], plan=dict(o["plan"], out="replayed")))], "case.json"), ([o["child"]["stderr"][-6000:]], "stderr.txt")]
+            if o["child"]["result"]:
+                files.append(([json.dumps(o["child"]["result"], indent=1)], "ws.json"))
+            rp = vlib.save_replay(v.pid, "ws-" + tag, files, "%s on the real websocket server (%s, seed %d): %s\nre-run: bin/check C20 --replay <this dir>"
+                                  % (o["sig"], o["plan"]["mode"] + " " + o["plan"]["order"], o["plan"]["seed"], o["text"]))
+            base = o["sig"].split(":")[0]
+            v.violation(o["sig"], rp, "%s [%s; the same seed again: %d/%d runs with the same outcome] %s"
+                        % (o["text"], tag, n + 1, len(again) + 1, WS_TEXT.get(base, WS_TEXT.get(base.split("/")[0], ""))))
+            log("websocket server: %s REPRODUCED %d/%d on the real code (%s)" % (o["sig"], n + 1, len(again) + 1, tag))
+        else:
+            cov.setdefault("unreproduced", []).append("%s: %s (%s) -- repeated in %d of %d re-runs of the seed" % (tag, o["sig"], o["text"][:200], n, len(again)))
+            log("websocket server: %s in %s did not repeat (%d of %d re-runs of the seed): evidence only" % (o["sig"], tag, n, len(again)))
+    if agg["overlaps"] == 0:
+        raise Infra("ws binding vacuous: no client ever stalled inside an answer while events were injected")
+    log("websocket server: %d runs of the real server (%d connections, %d requests answered, %d notifications, %d stalls inside an answer with events arriving; "
+        "%d samples of one writer waiting for wsConn.mux behind the other's network write), %d clean (%.0fs)"
+        % (len(outs), agg["connections"], agg["answers"], agg["notifications"], agg["overlaps"], agg["mux_waits"], nclean, time.time() - t1))
+    # ---- trace validation when the tree has the ws hooks
+    accepted, nontrivial, tstates, keys = 0, 0, 0, set()
+    if hooks:
+        sections = []
+        for o in sorted(outs, key=lambda x: x["sig"] is not None):  # every run whose process survived has a complete recording, whatever its outcome (clean runs first)
+            if o["child"]["result"] and o["child"]["result"]["hooks"]:
+                sections += ws_convert(os.path.join(o["plan"]["out"], "wsraw.ndjson"), os.path.basename(o["plan"]["out"]))
+        accepted, rejected, tstates = ws_judge(d, sections)
+        keys = set(k for k in (ws_overlap(s) for s in sections) if k)
+        nontrivial = len(keys)
+        conf = set()
+        for sec, ln, i, why in rejected:
+            if ln["l"] in conf:
+                continue
+            o = [x for x in outs if os.path.basename(x["plan"]["out"]) == sec["run"]][0]
+            if o["sig"] is not None:  # the trace of a run that failed anyway: where the judge stopped is part of that failure's evidence
+                cov.setdefault("rejected_traces_of_failed_runs", []).append("%s connection %d: line %d %s (%s); outcome of the run %s" % (sec["run"], sec["conn"], i, ln["l"], why, o["sig"]))
+                continue
+            again = 0
+            for k in range(2):
+                o2 = ws_run(binp, dict(o["plan"], out=o["plan"]["out"] + "-conf%d" % k))
+                if o2["child"]["result"] and o2["child"]["result"]["hooks"]:
+                    _, rej2, st2 = ws_judge(d, ws_convert(os.path.join(o2["plan"]["out"], "wsraw.ndjson"), sec["run"]), name="conf%d" % k)
+                    tstates += st2
+                    again += any(x[1]["l"] == ln["l"] for x in rej2)
+            if again == 2:
+                conf.add(ln["l"])
+                rp = vlib.save_replay(v.pid, "ws-conformance-" + sec["run"], [([json.dumps(dict(kind="ws", expect="Conformance/ws-" + ln["l"], plan=dict(o["plan"], out="replayed")))], "case.json"),
+                                      ([json.dumps(x) for x in sec["lines"]], "trace.ndjson")],
+                                      "connection %d of %s: line %d (%s) is %s of WsConn.tla" % (sec["conn"], sec["run"], i, json.dumps(ln), why))
+                v.violation("Conformance/ws-" + ln["l"], rp, "%s connection %d: the recorded step %d '%s' of goroutine %d is %s (spec/WsConn.tla: every message of a connection is written "
+                            "under wsConn.mux: lock, write, unlock) -- rejected again in 2/2 re-runs of the seed" % (sec["run"], sec["conn"], i, ln["l"], ln["p"], why))
+            elif v.violations:  # the tree is broken anyway (reported above): an unrepeatable rejection is evidence, not a machinery error
+                cov.setdefault("unreproduced", []).append("%s connection %d: trace rejected at line %d (%s: %s), again in %d of 2 re-runs" % (sec["run"], sec["conn"], i, ln["l"], why, again))
+            else:
+                raise Infra("ws trace of %s connection %d rejected at line %d (%s: %s) but only in %d of 2 re-runs: flaky observation, fix the trace specification"
+                            % (sec["run"], sec["conn"], i, ln["l"], why, again))
+        log("websocket server: %d connection traces judged by TLC (TraceWsConn.tla), %d accepted, %d distinct interleavings with a notifier's event inside a write of the read loop (or an answer ready inside a notifier's write)"
+            % (len(sections), accepted, nontrivial))
+    else:
+        log("websocket server: the tree has no ws hooks (notes/ws-hooks.diff): black-box outcome only, no trace validation")
+    # ---- binding self-test
+    tests = ws_selftest(v, w, d, binp, sz, seed, hooks, [o for o in outs if o["sig"] is None])
+    cov.update(dict(design_runs=runs, witness_schedules=[dict(order=o, schedule=s) for o, s in orders], hooks_present=hooks, binding=agg,
+                    connection_traces_accepted_by_tlc=accepted, connection_traces_nontrivial=nontrivial, selftest=tests, wall_s=round(time.time() - t0, 1)))
+    v.cov["states"] += tstates
+    v.cov["transitions"] += tstates
+    stats.update(runs=len(outs), clean=nclean, traces_ok=accepted, nontrivial_keys=keys, hooks=hooks, classes={"ws." + k: n for k, n in agg["classes"].items()})
+    return stats
+
+
+def ws_selftest(v, w, d, binp, sz, seed, hooks, clean):
+    done = []
+    # (1) the clients' comparator: the rest-server answers one request with another request's result -> must be reported as a corrupted answer
+    o = ws_run(binp, dict(ws_plan("directed", "reader-first", seed, sz, os.path.join(d, "selftest-wrong"), conns=1, rounds=2), selfTest="wrong-answer"))
+    if o["sig"] == "Corrupt/ws-frame-interleaved":
+        done.append("an answer carrying another request's result is reported: " + o["text"][:120])
+    elif o["sig"] and v.violations:
+        done.append("comparator self-test not conclusive on this tree: its run ended with %s (already reported)" % o["sig"])
+    else:
+        raise Infra("binding vacuous: a wrong answer of the rest-server was not noticed by the clients (outcome %s)" % o["sig"])
+    # (2) the outcome classifier: a perturbed clean result must not be clean
+    if clean:
+        res = json.loads(json.dumps(clean[0]["child"]["result"]))
+        res["leftover"] = ["readLoop in (*wsConn).Close [sync.Mutex.Lock] (innermost sync.runtime_SemacquireMutex)"]
+        sig, _ = ws_signature(dict(stderr="", panic=None, result=res))
+        if not (sig or "").startswith("Deadlock/ws-readLoop"):
+            raise Infra("binding vacuous: a read loop left over after the clients went away is classified %s" % sig)
+        done.append("a perturbed result (read loop left over) is classified " + sig)
+    # (3) the judge: corrupted trace lines must be rejected
+    if hooks and clean:
+        secs = []
+        for o in clean:
+            secs = [s for s in ws_convert(os.path.join(o["plan"]["out"], "wsraw.ndjson"), "selftest") if any(x["l"] == "sg_idle" for x in s["lines"]) and any(x["l"] == "rl_fwd" for x in s["lines"])]
+            if secs:
+                break
+        if not secs:
+            raise Infra("ws self-test: no connection trace with a forwarded request and a notification")
+        base = secs[0]
+        L = base["lines"]
+
+        def variant(name, lines):
+            okc, rej, _ = ws_judge(d, [dict(base, lines=lines)], name="selftest-" + name)
+            return rej[0] if rej else None
+
+        if variant("base", L) is not None:
+            if v.violations:
+                done.append("trace self-test not conclusive on this tree: its base trace is rejected (violations reported)")
+                for s in done:
+                    log("binding self-test (ws): " + s)
+                return done
+            raise Infra("ws self-test: the base trace is rejected")
+        i = next(k for k, x in enumerate(L) if x["l"] == "rl_fwd")
+        j = next(k for k in range(i, len(L)) if L[k]["l"] == "w_lock" and L[k]["p"] == 1)
+        # the answer written without the mutex: drop the reader's lock / unlock lines of the forwarded answer
+        e = next(k for k in range(j, len(L)) if L[k]["l"] == "w_unlock" and L[k]["p"] == 1)
+        r1 = variant("nolock", [x for k, x in enumerate(L) if not (j <= k <= e and x["p"] == 1 and x["l"] in ("w_lock", "w_beg", "w_end", "w_unlock"))])
+        if r1 is None:
+            raise Infra("binding vacuous: a trace whose forwarded answer is written without lock/unlock lines was accepted")
+        done.append("forwarded answer without its w_lock..w_unlock lines rejected at line %d (%s)" % (r1[2], r1[1]["l"]))
+        # a notifier entering its write while the read loop is inside its own: move a notifier's w_lock/w_beg into the reader's write
+        sg = next((k for k, x in enumerate(L) if x["l"] == "w_lock" and x["p"] != 1 and k > e), None)
+        if sg is not None:
+            mv = [L[sg], L[sg + 1]]
+            rest = [x for k, x in enumerate(L) if k not in (sg, sg + 1)]
+            pos = next(k for k, x in enumerate(rest) if x is L[j + 1]) + 1
+            r2 = variant("overlap", rest[:pos] + mv + rest[pos:])
+            if r2 is None:
+                raise Infra("binding vacuous: a trace with a notifier locking inside the read loop's critical section was accepted")
+            done.append("notifier's w_lock moved inside the read loop's critical section rejected at line %d (%s)" % (r2[2], r2[1]["l"]))
+        # the client got more than was written
+        k = next(k for k, x in enumerate(L) if x["l"] == "end")
+        r3 = variant("count", L[:k] + [dict(L[k], rd=L[k]["rd"] + 1)] + L[k + 1:])
+        if r3 is None:
+            raise Infra("binding vacuous: a trace whose client received more messages than were written was accepted")
+        done.append("end line with one more received message than written rejected at line %d" % r3[2])
+    for s in done:
+        log("binding self-test (ws): " + s)
+    return done
+
+
+def ws_replay(binp, w, case):
+    """--replay of a saved websocket case: the plan again, 3x; the violation stands when the recorded outcome repeats every time."""
+    d = w.sub("ws-replay")
+    outs = pmap(lambda k: ws_run(binp, dict(case["plan"], out=os.path.join(d, "run%d" % k))), range(3), workers=3)
+    if case["expect"].startswith("Conformance/ws-"):
+        lab, hits = case["expect"][len("Conformance/ws-"):], 0
+        for k, o in enumerate(outs):
+            if o["child"]["result"] and o["child"]["result"]["hooks"]:
+                _, rej, _ = ws_judge(d, ws_convert(os.path.join(o["plan"]["out"], "wsraw.ndjson"), "replay"), name="replay%d" % k)
+                hits += any(x[1]["l"] == lab for x in rej)
+        log("replay: websocket scenario 3x, traces rejected at '%s' in %d runs" % (lab, hits))
+        return hits >= 2  # (a tree that breaks the discipline may also fail a run in another way before the judge gets that far)
+    sigs = [o["sig"] for o in outs]
+    log("replay: websocket scenario 3x -> %s" % sigs)
+    return sigs.count(case["expect"]) == 3
+
+
+def sub_ws_ctx(ctx):
+    st = sub_ws(ctx["v"], ctx["w"], ctx["tier"], ctx["seed"], binp=ctx["bin"])
+    ctx["replayed"] += st["runs"]
+    ctx["traces_ok"] += st["traces_ok"]
+    ctx["nontrivial"] |= st["nontrivial_keys"]
+    ctx["classes"].update(st["classes"])
+    ctx["selftests"] += ctx["v"].cov["ws"]["selftest"]
+
+
+SUBCHECKS = [sub_design, sub_buslocks, sub_ws_ctx, sub_deviations, sub_indexer, sub_timers, sub_simulate, sub_stress, sub_selftest]
 
 
 
@@ -851,7 +1314,9 @@ def do_replay(pid, w, replay):
         case = json.load(f)
     binp = vlib.build("vh_conc")
     plan = dict(case["plan"], out=os.path.join(w.sub("replay"), "run"))
-    if case["kind"] == "buslock":
+    if case["kind"] == "ws":
+        bad = ws_replay(binp, w, case)
+    elif case["kind"] == "buslock":
         c = run_child(binp, plan, kind="buslock")
         bad = bool(c["result"]["blocked"]) or not c["result"]["delivered"]
         log("replay: bus lock scenario -> blocked=%s delivered=%s" % (c["result"]["blocked"], c["result"]["delivered"]))
